@@ -27,6 +27,148 @@ class F:
         self.node = fi.node
         self._xs: Dict[int, ast.AST] = {}
 
+    # ------------------------------------------------------------------ reaching definitions
+    def _rd(self):
+        """IN[node] : name -> frozenset of defining node indices (entry index for parameters)"""
+        if getattr(self, "_rdin", None) is not None:
+            return self._rdin
+        g = self.g
+        gen: Dict[int, Dict[str, ast.AST]] = {}  # node -> {name: value or None}
+        for n in g.nodes:
+            d: Dict[str, Optional[ast.AST]] = {}
+            roots = []
+            if n.kind == "stmt" and n.stmt is not None:
+                st = n.stmt
+                if isinstance(st, ast.Assign):
+                    for t in st.targets:
+                        if isinstance(t, ast.Name):
+                            d[t.id] = st.value if len(st.targets) == 1 else None
+                        else:
+                            for x_ in ast.walk(t):
+                                if isinstance(x_, ast.Name) and isinstance(x_.ctx, ast.Store):
+                                    d[x_.id] = None
+                elif isinstance(st, ast.AnnAssign):
+                    if isinstance(st.target, ast.Name) and st.value is not None:
+                        d[st.target.id] = st.value
+                elif isinstance(st, ast.AugAssign):
+                    if isinstance(st.target, ast.Name):
+                        d[st.target.id] = None
+                elif isinstance(st, (ast.Import, ast.ImportFrom)):
+                    for al in st.names:
+                        d[(al.asname or al.name).split(".")[0]] = None
+                elif isinstance(st, ast.Delete):
+                    for t in st.targets:
+                        if isinstance(t, ast.Name):
+                            d[t.id] = None
+                roots = [st]
+            elif n.kind == "for" and n.stmt is not None:
+                for x_ in ast.walk(n.stmt.target):
+                    if isinstance(x_, ast.Name):
+                        d[x_.id] = None
+            elif n.kind == "with" and n.stmt is not None:
+                for it in n.stmt.items:
+                    if it.optional_vars is not None:
+                        for x_ in ast.walk(it.optional_vars):
+                            if isinstance(x_, ast.Name):
+                                d[x_.id] = None
+            elif n.kind == "except" and n.stmt is not None and getattr(n.stmt, "name", None):
+                d[n.stmt.name] = None
+            elif n.kind == "def" and n.stmt is not None:
+                d[n.stmt.name] = None
+            elif n.kind == "test":
+                roots = list(n.exprs)
+            for r in roots:
+                for x_ in walk_local(r):
+                    if isinstance(x_, ast.NamedExpr) and isinstance(x_.target, ast.Name):
+                        d[x_.target.id] = x_.value
+            if d:
+                gen[n.idx] = d
+        params = set(self.fi.params) if hasattr(self.fi, "params") else set()
+        IN: Dict[int, Dict[str, frozenset]] = {n.idx: {} for n in g.nodes}
+        OUT: Dict[int, Dict[str, frozenset]] = {n.idx: {} for n in g.nodes}
+        OUT[g.entry] = {p_: frozenset([g.entry]) for p_ in params}
+        work = [n.idx for n in g.nodes]
+        preds = g.pred
+        while work:
+            a = work.pop()
+            if a != g.entry:
+                inn: Dict[str, frozenset] = {}
+                for p_ in preds.get(a, []):
+                    for k, v in OUT[p_].items():
+                        inn[k] = inn.get(k, frozenset()) | v
+                IN[a] = inn
+                out = dict(inn)
+                for k in gen.get(a, {}):
+                    out[k] = frozenset([a])
+            else:
+                out = OUT[g.entry]
+            if out != OUT[a] or a == g.entry:
+                changed = out != OUT[a]
+                OUT[a] = out
+                if changed or a == g.entry:
+                    for b, _ in g.succ[a]:
+                        if b not in work:
+                            work.append(b)
+        self._rdin = IN
+        self._rdgen = gen
+        self._params = params
+        mut = set()
+        for n_ in walk_local(self.node):
+            if isinstance(n_, ast.Attribute) and isinstance(n_.ctx, (ast.Store, ast.Del)) and isinstance(n_.value, ast.Name):
+                mut.add(n_.value.id)
+        self._mutated = mut
+        return IN
+
+    def xe_at(self, idx: int, e: ast.AST, depth: int = 6) -> ast.AST:
+        """e with every local whose *unique reaching definition at node idx* is a plain assignment replaced by the
+        (recursively expanded) assigned expression; parameters, loop/with targets, objects under construction
+        (x.a = ..) and fresh accumulators are kept as names."""
+        IN = self._rd()
+        gen = self._rdgen
+        outer = self
+
+        class T(ast.NodeTransformer):
+            def __init__(self, at, depth):
+                self.at = at
+                self.depth = depth
+
+            def visit_Name(self, node):
+                if not isinstance(node.ctx, ast.Load) or self.depth <= 0:
+                    return node
+                if node.id in outer._params or node.id in outer._mutated:
+                    return node
+                rd = IN.get(self.at, {}).get(node.id)
+                if not rd or len(rd) != 1:
+                    return node
+                dn = next(iter(rd))
+                val = gen.get(dn, {}).get(node.id)
+                if val is None or M._is_fresh_container(val) or dn == self.at and False:
+                    return node
+                r = T(dn, self.depth - 1).visit(copy.deepcopy(val))
+                return ast.copy_location(r, node)
+
+            def visit_NamedExpr(self, node):
+                return self.visit(node.value)
+
+            def visit_Lambda(self, node):
+                return node
+
+            def _comp(self, node):
+                bound = {x_.id for g_ in node.generators for x_ in ast.walk(g_.target) if isinstance(x_, ast.Name)}
+                saved = outer._params
+                outer._params = saved | bound  # names bound by the comprehension are not locals of the function
+                try:
+                    return self.generic_visit(node)
+                finally:
+                    outer._params = saved
+
+            visit_ListComp = visit_SetComp = visit_DictComp = visit_GeneratorExp = _comp
+
+        return ast.fix_missing_locations(T(idx, depth).visit(copy.deepcopy(e)))
+
+    def x_at(self, idx: int, e: ast.AST) -> str:
+        return norm(self.xe_at(idx, e))
+
     # ------------------------------------------------------------------ text
     def x(self, e: ast.AST) -> str:
         """normalised text of e with single-definition locals expanded"""
@@ -50,7 +192,7 @@ class F:
         """(test node, label on which the pattern holds) for atoms matching any of the patterns"""
         out: List[Edge] = []
         for p in patterns:
-            for e in M.find_tests(self.g, self.node, p):
+            for e in M.find_tests(self.g, self.node, p, expander=self.xe_at):
                 if e not in out:
                     out.append(e)
         return out
@@ -103,7 +245,7 @@ class F:
             if n.kind not in kinds or n.stmt is None:
                 continue
             for p in pats:
-                if M.match(p, n.stmt) is not None or M.match(p, self.xstmt(n.stmt)) is not None:
+                if M.match(p, n.stmt) is not None or M.match(p, self.xe_at(n.idx, n.stmt)) is not None:
                     out.append(n.idx)
                     break
         return out
@@ -117,7 +259,7 @@ class F:
             for e in n.exprs:
                 if e is None or hit:
                     continue
-                for root in (e, self.xstmt(e) if isinstance(e, ast.stmt) else self.xe(e)):
+                for root in (e, self.xe_at(n.idx, e)):
                     for c in walk_local(root):
                         if isinstance(c, ast.Call) and any(M.match(p, c) is not None for p in pats):
                             hit = True
@@ -137,7 +279,7 @@ class F:
             for e in n.exprs:
                 if e is None:
                     continue
-                for root in (e, self.xstmt(e) if isinstance(e, ast.stmt) else self.xe(e)):
+                for root in (e, self.xe_at(n.idx, e)):
                     for c in walk_local(root):
                         if isinstance(c, ast.Call):
                             b = M.match(p, c)
@@ -154,7 +296,7 @@ class F:
             st = n.stmt
             if n.kind != "stmt" or not isinstance(st, (ast.Assign, ast.AnnAssign, ast.AugAssign)):
                 continue
-            xs = self.xstmt(st)
+            xs = self.xe_at(n.idx, st)
             for s in (st, xs):
                 tg = s.targets if isinstance(s, ast.Assign) else [s.target]
                 hit = None
@@ -173,7 +315,7 @@ class F:
         out = []
         for n in self.g.nodes:
             if n.kind == "stmt" and isinstance(n.stmt, ast.Delete):
-                for s in (n.stmt, self.xstmt(n.stmt)):
+                for s in (n.stmt, self.xe_at(n.idx, n.stmt)):
                     if any(M.match(p, t) is not None for t in s.targets):
                         out.append(n.idx)
                         break
